@@ -23,7 +23,7 @@ TABLE = {
  "C04": ("dominance/path rules: authoriser dominates every attach point; validator completeness; refusal acknowledged",
          "Every path from the tunnel-open dispatcher to a bridge attach point passes a successful authoriser for this connection; the validator's nil returns pass identity, validity and party checks; refusal edges send a failure ack and reach no attach point.",
          "Does not decide the product space of runtime mapping states or storage staleness."),
- "C05": ("bounded-allocation and bounded-inflate rules (wire length capped before allocation; gzip output limited), zero-progress loop rule, dispatcher totality and nil-guard rules",
+ "C05": ("value-range style bounded-allocation rule (every allocation size on the read path bounded and non-negative by value, through helpers and call sites), bounded-inflate rule, zero-progress loop rule, dispatcher totality and nil-guard rules",
          "Every allocation whose size derives from wire bytes is dominated by a comparison with the maximum body size; every inflate of packet bytes goes through a limit; read loops on the peer's reader cannot spin on (0,nil); the dispatcher's default returns an error and optional components are nil-tested before use.",
          "Does not decide absence of all panics or CPU time; third-party decoders are trusted."),
  "C06": ("path-order and rollback rules on the activation function; origin of mapping fields; atomic-claim template",
@@ -50,7 +50,7 @@ TABLE = {
  "C13": ("lockset on the in-memory map, zero-expiry / zero-ttl convention rules over every expiry comparison and ttl use, interface parity via types.Implements",
          "Every access to the in-memory map holds its mutex (write lock for mutation, one contiguous section for read-check-write); every expiry comparison is conjoined with the not-zero test; every ttl parameter is used only under ttl > 0; both backends implement every optional interface the repositories assert.",
          "Does not decide linearizability or cross-backend value equality."),
- "C14": ("partial evaluation of the category switch into a tier table; async-fill and non-atomic list RMW detection; prefix classification",
+ "C14": ("partial evaluation of every key-addressed facade operation on the category constant into a tier table (helpers evaluated per category); getCategory read as an ordered decision list over the prefix tables; async-fill and non-atomic list RMW detection",
          "For each key category the tiers touched by set/get/delete agree; no read method spawns a goroutine that writes a tier; list append/remove is atomic or locked; cross-node key prefixes classify as shared and runtime prefixes never reach persistence.",
          "Does not decide interleavings or tier failures."),
  "C15": ("returned-equals-marked dominance rule in the generator, atomic-mark delegation in every implementer, claim/renew tier agreement",
@@ -73,6 +73,9 @@ TABLE = {
          "Does not decide full differential conformance over all byte strings."),
 }
 
+# every check also runs the generic contradiction rules over the property's anchor files
+GENERIC = "; plus generic path/dataflow rules G1-G16 over the anchored functions (lock pairing and order, nil/err contradictions, buffer ownership and aliasing incl. pooled buffers, bounds on unchecked lengths, read-ahead, close-vs-I/O-lock)"
+
 PENDING_REASON = "static rules for this property are designed (DESIGN.md §3) but not yet implemented in /verif/checker; not claimed until they run clean on the tree"
 
 def main():
@@ -93,6 +96,7 @@ def main():
         if pid not in ids:
             na.append({"property_id": pid, "reason": PENDING_REASON})
             continue
+        tech += GENERIC
         checks.append({
             "property_id": pid,
             "quick_cmd": f"bin/check {pid} quick",
